@@ -133,6 +133,41 @@ namespace
       }
   }
 
+  // ---- (c2) pairs of tree deviations of the smallest base (thorough): every unordered pair of {delete, replace by null / -1 / "x" / [] / {}} at two nodes ----
+  void tree_pair_candidates(const std::string &base, std::vector<Cand> &out)
+  {
+    rapidjson::Document d0;
+    d0.Parse<rapidjson::kParseNanAndInfFlag>(base.c_str());
+    std::vector<std::string> paths;
+    collect(d0, "", paths);
+    const int OPS[] = {-1, 0, 3, 8, 9, 10};   // -1: delete, otherwise index into REPL
+    struct F { std::string path; int op; };
+    std::vector<F> singles;
+    for (auto &p : paths) if (!p.empty()) for (int op : OPS) singles.push_back({p, op});
+    auto apply = [](rapidjson::Document &d, const F &f) -> bool
+    {
+      if (rapidjson::Pointer(f.path.c_str()).Get(d) == nullptr) return false;
+      if (f.op < 0) return rapidjson::Pointer(f.path.c_str()).Erase(d);
+      rapidjson::Document rv; rv.Parse<rapidjson::kParseNanAndInfFlag>(REPL[f.op]);
+      rapidjson::Value nv(rv, d.GetAllocator());
+      rapidjson::Pointer(f.path.c_str()).Set(d, nv);
+      return true;
+    };
+    std::set<std::string> seen;
+    for (size_t a = 0; a < singles.size(); ++a) for (size_t b = a + 1; b < singles.size(); ++b)
+        {
+          if (singles[a].path == singles[b].path) continue;
+          // apply the later path first: an erase of an earlier array element would renumber the later one
+          rapidjson::Document d; d.CopyFrom(d0, d.GetAllocator());
+          if (!apply(d, singles[b])) continue;
+          if (!apply(d, singles[a])) continue;   // a is an ancestor-independent node or an ancestor of b (then b's change is swallowed: skip, it equals a single deviation)
+          if (singles[b].path.compare(0, singles[a].path.size() + 1, singles[a].path + "/") == 0) continue;
+          const std::string text = dump(d);
+          if (!seen.insert(text).second) continue;
+          out.push_back({"tree/pair", text, "base 0: " + singles[a].path + (singles[a].op < 0 ? " deleted" : std::string(" := ") + REPL[singles[a].op]) + " and " + singles[b].path + (singles[b].op < 0 ? " deleted" : std::string(" := ") + REPL[singles[b].op])});
+        }
+  }
+
   // ---- (d) list-length families: every combination of lengths in {0,1,2,3} for lists that must agree ----
   std::string list_of(const std::vector<std::string> &vals, size_t n)
   {
@@ -342,6 +377,7 @@ namespace
       }
     // (c) tree deviations
     tree_candidates(B0, 0, thorough, *out);
+    if (thorough) tree_pair_candidates(B0, *out);
     for (size_t bi = 0; bi < bs.size(); ++bi) if (thorough || bi != 1) tree_candidates(bs[bi], static_cast<int>(bi + 1), thorough, *out);
     // version strings: only the exact major.minor of the library may be accepted
     for (const char *v : {"1.1", "1.0", "1.2", "1.10", "1.11", "1.1.0", "1.1 ", " 1.1", "1.1-pre", "11.1", "1", "", "2.1", "01.1", "1.1\\n", "1,1"})
